@@ -3,6 +3,7 @@
 // up to length 2 / 3) share the same oracles.
 #include "common/vf.hpp"
 #include <cerrno>
+#include <sys/mman.h>
 extern "C" {
 #include "qlibc.h"
 }
@@ -173,6 +174,26 @@ bool vf_enumerate(Ctx &c, EnumStats &st) {
             st.evaluations++;
             if (len > 0) st.nontrivial++;
             if (st.samples.size() < 3 && (v % 9973) == 5) st.samples.push_back(c.trace);
+        }
+    }
+    // thorough tier, one shard: in-place decoders on a string of 2^31 characters (lengths that no longer
+    // fit a 32-bit int); the buffer is an anonymous mapping, the expected result is known by construction
+    if (c.tier && shard == 0) {
+        size_t n = ((size_t)1 << 31) + 2;
+        char *m = (char *)mmap(nullptr, n + 16, PROT_READ | PROT_WRITE, MAP_PRIVATE | MAP_ANONYMOUS | MAP_NORESERVE, -1, 0);
+        if (m != MAP_FAILED) {
+            for (int which = 0; which < 2; which++) {
+                memset(m, which == 0 ? '4' : 'a', n); m[n] = 0;
+                if (which == 0) { m[1] = '1'; m[n - 1] = 'F'; m[n - 2] = 'e'; }       // hex: "41 44 44 ... 44 eF"
+                c.trace = which == 0 ? "huge input: qhex_decode of 2^31+2 hex digits" : "huge input: qurl_decode of 2^31+2 literal characters";
+                size_t got = which == 0 ? qhex_decode(m) : qurl_decode(m);
+                size_t want = which == 0 ? n / 2 : n;
+                bool ok = got == want && m[want] == 0 && (which == 0 ? ((unsigned char)m[0] == 0x41 && (unsigned char)m[1] == 0x44 && (unsigned char)m[want - 1] == 0xEF && (unsigned char)m[want / 2] == 0x44) : (m[0] == 'a' && m[want - 1] == 'a'));
+                if (!ok) { munmap(m, n + 16); c.fail(FUNC, which == 0 ? "encode:hex-roundtrip" : "encode:url-roundtrip", "%s returned %zu bytes, expected %zu with the bytes written", which == 0 ? "qhex_decode(2^31+2 digits)" : "qurl_decode(2^31+2 characters)", got, want); }
+                st.evaluations++; st.nontrivial++; st.samples.push_back(c.trace);
+            }
+            munmap(m, n + 16);
+            st.extra["max_huge_input_chars"] = (uint64_t)n;
         }
     }
     st.states = st.evaluations;
